@@ -222,6 +222,12 @@ def perform(kind: str, o, name: str, a: dict):
     if name == "delitem_idx":
         del o[i]
         return None
+    if name == "delitem_slice":
+        del o[i:a["idx2"]]
+        return None
+    if name == "setitem_slice":
+        o[i:a["idx2"]] = build_src(dict(a, form="pairs"))
+        return None
     if name == "setitem_idx":
         o[i] = k if kind == "HeaderSet" else (k, v)
         return None
@@ -309,7 +315,7 @@ def reads(idx: int, kind: str, o, keys, conv: bool = True) -> list:
             n = len(o)
             for i in range(-(n + 1), n + 1):
                 out.append(_rd(idx, "getitem_idx", attempt("pair", lambda: o[i]), i=i))
-            for i, j in ((0, 1), (1, n + 2), (-1, n), (0, -1), (-2, 2)):
+            for i, j in ((0, 1), (1, n + 2), (-1, n), (0, -1), (-2, 2), (0, n), (n - 1, n), (-n - 1, 1), (n, n + 1)):
                 out.append(_rd(idx, "slice", attempt("new", lambda: list(o[i:j])), i=i, j=j))
         return out
     if kind == "HeaderSet":
@@ -633,6 +639,7 @@ ENV_PROBES = ["a", "A", "b", "x-y", "X_Y", "Content-Type", "content_type", "Cont
 MD_MUT = ["setitem", "add", "delitem", "setlist", "setdefault", "setlistdefault", "update", "ior", "or", "pop",
           "popitem", "poplist", "popitemlist", "clear"]
 HD_MUT = ["set", "setitem", "add", "extend", "update", "ior", "or", "remove", "delitem", "delitem_idx", "setitem_idx",
+          "delitem_slice", "setitem_slice",
           "pop", "pop_idx", "pop_last", "popitem", "setlist", "setdefault", "setlistdefault", "clear"]
 HS_MUT = ["add", "remove", "discard", "update", "clear", "delitem_idx", "setitem_idx"]
 
